@@ -38,7 +38,12 @@ var c18Suffixes = []string{
 	"preceding::node()", "descendant::node()", "descendant-or-self::*", "self::a", "parent::*", "*[1]", "*[last()]", "a[2]", "node()[position()=2]", "ancestor::*[1]", "preceding::*[1]",
 	"following-sibling::*[1]", "*/*", "../*", "../@*", ".//a", "*[a]", "@*[1]", "ancestor::node()[last()]", "preceding-sibling::*[last()]", "descendant::*[2]", "self::node()[position()=1]",
 	"self::node()[last()=1]", "*[position()=last()]", "following::node()[2]", "../..",
+	// predicates whose value is a number without being spelled as one
+	"*[$n]", "node()[$n]", "*[$n][1]", "*[count(../*) - 1]", "*[string-length(name())]", "*[number(@x)]", "preceding-sibling::*[$n]", "*[count(*) + 1]", "ancestor::*[$one]", "*[$one + 1]",
 }
+
+// c18Env: the C01 bindings plus two numeric variables for the predicates above.
+var c18Env = EnvSpec{NS: c01Env.NS, Vars: []VarSpec{numVar("n", 2), numVar("one", 1)}}
 
 var c18Funcs = []string{"name", "local-name", "namespace-uri", "string", "number", "string-length", "normalize-space"}
 
@@ -195,7 +200,7 @@ func C18(c *run.Check) {
 			cache = caches[w]
 		}
 		for _, R := range c18Suffixes {
-			msg, ev := c18Compose(d, c01Env, P, R, cache)
+			msg, ev := c18Compose(d, c18Env, P, R, cache)
 			c.Evaluations.Add(int64(ev))
 			if msg != "" {
 				cs := c18Case{Kind: "compose", Doc: d.String(), Events: impl.Events(d), P: P, R: R, Detail: msg}
@@ -245,7 +250,7 @@ func init() {
 			d := impl.FromEvents(cs.Events)
 			var msg string
 			if probe.Kind == "compose" {
-				msg, _ = c18Compose(d, c01Env, cs.P, cs.R, newExprCache())
+				msg, _ = c18Compose(d, c18Env, cs.P, cs.R, newExprCache())
 			} else {
 				msg, _ = c18FuncStep(d, c01Env, cs.P, cs.F, newExprCache())
 			}
